@@ -705,7 +705,10 @@ class WaveShareNmea2000Gateway(AsyncIOClient):
             start = self._buffer.find(b"\xaa\x55")
 
             if start == -1:
-                # If start marker not found, wait for more data
+                # If start marker not found, wait for more data.
+                # Keep only a possible first half of the marker so that noise cannot pile up.
+                keep = 1 if self._buffer.endswith(b"\xaa") else 0
+                del self._buffer[:len(self._buffer) - keep]
                 break
             if start + 20 > len(self._buffer):
                 # Not enough data for a full packet yet
